@@ -14,6 +14,53 @@ import (
 	"golang.org/x/tools/go/ssa"
 )
 
+// callerObligations: a function with a declared caller list is called directly by those functions only.
+func (g *Gen) callerObligations(prop string) []*Obligation {
+	var out []*Obligation
+	for _, cd := range g.callersDecl {
+		if !hasProp(cd.Props, prop) {
+			continue
+		}
+		allowed := map[string]bool{}
+		for _, c := range cd.Callers {
+			allowed[cd.Pkg+"."+c] = true
+		}
+		target := cd.Pkg + "." + cd.Callee
+		var bad []string
+		found := false
+		for _, fname := range g.fnames {
+			fn := g.funcs[fname]
+			for _, b := range fn.Blocks {
+				for _, ins := range b.Instrs {
+					ci, ok := ins.(ssa.CallInstruction)
+					if !ok {
+						continue
+					}
+					if c := ci.Common().StaticCallee(); c != nil && canonName(c) == target {
+						found = true
+						if !allowed[fname] {
+							bad = append(bad, fname+" ("+g.fset.Position(ins.Pos()).String()+")")
+						}
+					}
+				}
+			}
+		}
+		o := &Obligation{Name: target + ".G.callers", Kind: "G", Props: cd.Props, Func: "(call graph)",
+			Clause: target + " is called directly only by " + strings.Join(cd.Callers, ", ") + " (each of them settles the query it ran: see their contracts)"}
+		switch {
+		case !found:
+			o.Static, o.Result = "fails: no direct call of "+target+" found (the declaration is stale)", "failed"
+		case len(bad) > 0:
+			sort.Strings(bad)
+			o.Static, o.Result = "fails: also called by "+strings.Join(bad, ", "), "failed"
+		default:
+			o.Static = "holds"
+		}
+		out = append(out, o)
+	}
+	return out
+}
+
 func (g *Gen) globalObligations(prop string) []*Obligation {
 	var out []*Obligation
 	wanted := false
